@@ -72,24 +72,34 @@ class Ctx:
 
     # ---------------------------------------------------------------- build
     def harness_bin(self, which="harness", tags="verif", race=False):
+        """Build the harness against REPO's working tree.  The module is built in a scratch copy whose replace
+        directives point at REPO (default /repo; VERIF_REPO overrides it, e.g. for a snapshot), so that concurrent
+        checks never write into /verif."""
         key = (which, tags, race)
         if key in self._bins:
             return self._bins[key]
-        src = os.path.join(VERIF, which)
-        sumf = os.path.join(src, "go.sum")
-        if which == "harness-web":
-            sums = set()
-            for m in ("", "chi", "echo", "fiber", "gin", "http"):
-                with open(os.path.join(REPO, m, "go.sum")) as f:
-                    sums.update(l for l in f if l.strip())
-            with open(sumf, "w") as f:
-                f.write("".join(sorted(sums)))
-        if which == "harness":
-            shutil.copyfile(os.path.join(REPO, "go.sum"), sumf)
-            lib = os.path.join(src, "libgen.go")
-            gen = os.path.join(VERIF, "gen", "genlib.py")
-            if not os.path.exists(lib) or os.path.getmtime(lib) < os.path.getmtime(gen):
-                g = subprocess.run([sys.executable, gen, lib], capture_output=True, text=True)
+        src0 = os.path.join(VERIF, which)
+        src = os.path.join(self.scratch, "src-" + which)
+        if not os.path.isdir(src):
+            shutil.copytree(src0, src, ignore=shutil.ignore_patterns("go.sum", "libgen.go"))
+            gm = os.path.join(src, "go.mod")
+            with open(gm) as f:
+                txt = f.read()
+            txt = txt.replace("=> /repo", "=> " + REPO)
+            with open(gm, "w") as f:
+                f.write(txt)
+            sumf = os.path.join(src, "go.sum")
+            if which == "harness-web":
+                sums = set()
+                for m in ("", "chi", "echo", "fiber", "gin", "http"):
+                    with open(os.path.join(REPO, m, "go.sum")) as f:
+                        sums.update(l for l in f if l.strip())
+                with open(sumf, "w") as f:
+                    f.write("".join(sorted(sums)))
+            else:
+                shutil.copyfile(os.path.join(REPO, "go.sum"), sumf)
+                g = subprocess.run([sys.executable, os.path.join(VERIF, "gen", "genlib.py"), os.path.join(src, "libgen.go")],
+                                   capture_output=True, text=True)
                 if g.returncode != 0:
                     raise Inconclusive("constructor library generation failed: " + g.stderr)
         outp = os.path.join(self.scratch, "bin-%s-%s%s" % (which, tags.replace(",", "_"), "-race" if race else ""))
